@@ -19,13 +19,18 @@ def run(tier):
     r.outside += ["histories longer than the bound; paths longer than the bound; alphabets larger than 4 call sites"]
     if tier == "quick":
         confs = [dict(n=2, m=2, codes=4, kmax=2, pct=240), dict(n=3, m=2, codes=2, kmax=1, pct=300, first_add=True),
-                 dict(n=5, m=1, codes=2, kmax=1, pct=300, first_add=True)]
+                 dict(n=5, m=1, codes=2, kmax=1, pct=300, first_add=True),
+                 # two stored paths with a common prefix, then a removal, then an add (3 call sites)
+                 dict(n=4, m=2, codes=3, kmax=1, pct=300, first_add=True, kinds=[0, 0, 1, 0], fixed_first=[0, [0, 1]])]
     else:
         confs = [dict(n=2, m=3, codes=4, kmax=2, pct=1500), dict(n=3, m=2, codes=3, kmax=2, pct=3000),
                  dict(n=3, m=2, codes=4, kmax=1, pct=3000), dict(n=4, m=2, codes=2, kmax=1, pct=3000, first_add=True),
                  dict(n=5, m=2, codes=2, kmax=1, pct=3000, first_add=True, kinds=[0, 0, 1, 1, 0]),
                  dict(n=5, m=2, codes=2, kmax=1, pct=3000, first_add=True, kinds=[0, 0, 1, 0, 0]),
-                 dict(n=5, m=2, codes=2, kmax=1, pct=3000, first_add=True, kinds=[0, 1, 0, 1, 0])]
+                 dict(n=5, m=2, codes=2, kmax=1, pct=3000, first_add=True, kinds=[0, 1, 0, 1, 0]),
+                 dict(n=4, m=2, codes=3, kmax=1, pct=3000, first_add=True, kinds=[0, 0, 1, 0]),
+                 dict(n=4, m=2, codes=3, kmax=1, pct=3000, first_add=True, kinds=[0, 0, 0, 0], fixed_first=[0, [0, 1]]),
+                 dict(n=4, m=3, codes=3, kmax=1, pct=3000, first_add=True, kinds=[0, 0, 0, 0], fixed_first=[0, [0, 1]], second=[0, [0, 2]])]
     b = xrun.Batch(r)
     for c in confs:
         n, m, codes = c["n"], c["m"], c["codes"]
@@ -37,6 +42,10 @@ def run(tier):
         ops1 = [[k, p] for k in range(kmax + 1) for p in firsts]
         if c.get("kinds"):
             ops1 = [o for o in ops1 if o[0] == c["kinds"][1]]
+        if c.get("fixed_first"):
+            ops0 = [c["fixed_first"]]
+        if c.get("second"):
+            ops1 = [c["second"]]
         prefixes = [[a] for a in ops0] if n < 4 else [[a, b_] for a in ops0 for b_ in ops1]
         slices = [dict(n=n, m=m, codes=codes, kmax=kmax, prefix=pf, kinds=c.get("kinds")) for pf in prefixes]
         kd = "add/remove/exists" if kmax == 2 else "add/remove"
